@@ -98,6 +98,15 @@ static void run_until(int want, int ms) {
   }
   uv_run(loop, UV_RUN_NOWAIT);
 }
+/* after a timeout: do not hang in uv_run on handles whose exit_cb never came */
+static void abandon(int n) {
+  int i;
+  for (i = 0; i < n; i++)
+    if (cbcount[i] == 0 && pids[i] > 0 && !uv_is_closing((uv_handle_t*) &procs[i])) {
+      kill(pids[i], SIGKILL);
+      uv_close((uv_handle_t*) &procs[i], on_close);
+    }
+}
 static void dump_parent(void) { static char b[1 << 16]; int n = fdtable(b, sizeof b, "P fd"); fwrite(b, 1, n, out); }
 static void cat_report(const char* path) {
   FILE* f = fopen(path, "re"); char l[2048];
@@ -142,7 +151,7 @@ static void do_layout(char** w, int nw) {
   rc = uv_spawn(loop, &procs[0], &opt);
   pids[0] = rc == 0 ? uv_process_get_pid(&procs[0]) : -1;
   fprintf(out, "spawn %s active=%d\n", rc == 0 ? "0" : uv_err_name(rc), uv_is_active((uv_handle_t*) &procs[0]));
-  if (rc == 0) run_until(1, 10000);
+  if (rc == 0) { run_until(1, 10000); abandon(1); }
   else { int k; for (k = 0; k < 20; k++) { uv_run(loop, UV_RUN_NOWAIT); usleep(1000); } uv_close((uv_handle_t*) &procs[0], on_close); }
   for (i = 0; i < np; i++) if (!uv_is_closing((uv_handle_t*) &pipes[i])) uv_close((uv_handle_t*) &pipes[i], on_close);
   uv_run(loop, UV_RUN_DEFAULT);
@@ -175,6 +184,7 @@ static void do_many(char** w, int nw) {
   }
   if (pre) { usleep(pre * 1000); pthread_sigmask(SIG_SETMASK, &old, NULL); }
   run_until(n, 20000);
+  abandon(n);
   uv_run(loop, UV_RUN_DEFAULT);
   fprintf(out, "cbs %d\n", ncb);
   zombies();
@@ -194,6 +204,7 @@ static void do_kill(char** w) {
   rc = !strcmp(w[1], "process") ? uv_process_kill(&procs[0], sig) : uv_kill(pid, sig);
   fprintf(out, "kill %d\n", rc);
   run_until(1, 10000);
+  abandon(1);
   uv_run(loop, UV_RUN_DEFAULT);
   fprintf(out, "after %s\n", uv_err_name(uv_kill(pid, 0)));
   zombies();
@@ -224,6 +235,9 @@ static void do_echo(void) {
   uv_write(&wr, (uv_stream_t*) &pin, &b, 1, write_cb);
   uv_read_start((uv_stream_t*) &pout, alloc_cb, read_cb);
   run_until(1, 10000);
+  abandon(1);
+  if (!uv_is_closing((uv_handle_t*) &pin)) uv_close((uv_handle_t*) &pin, on_close);
+  if (!uv_is_closing((uv_handle_t*) &pout)) uv_close((uv_handle_t*) &pout, on_close);
   uv_run(loop, UV_RUN_DEFAULT);
   got[ngot] = 0;
   fprintf(out, "echo %s\n", !strcmp(got, "ping\n") ? "ok" : "MISMATCH");
